@@ -101,10 +101,13 @@ def split_strings(doc, schema, value, typed, free, depth=0):
 
 def declared_parameters(doc, version):
     (template, item), = doc["paths"].items()
-    (method, op), = item.items()
+    (method, op), = [(k, v) for k, v in item.items() if k != "parameters"]
     out = {"path": {}, "query": {}, "header": {}, "cookie": {}}
     body = []
-    for p in op.get("parameters", []):
+    own = {(p["name"], p["in"]) for p in op.get("parameters", [])}
+    # path-level parameters apply unless the operation declares one of the same name AND location
+    effective = [p for p in item.get("parameters", []) if (p["name"], p["in"]) not in own] + list(op.get("parameters", []))
+    for p in effective:
         if p["in"] == "body":
             body.append(("application/json", p["schema"], p.get("required", False)))
             continue
